@@ -124,7 +124,12 @@ def suite_codecs(ctx):
             h = 0
             bad = None
             for n in range(lo, hi, stride):
-                bs = fn(n)
+                try:
+                    bs = fn(n)
+                except Exception as e:  # noqa  (an in-range value must encode)
+                    if bad is None:
+                        bad = (n, ('raised ' + type(e).__name__).encode())
+                    bs = b''
                 if bs != n.to_bytes(3, 'big') and bad is None:
                     bad = (n, bs)
                 for b in bs:
@@ -134,14 +139,18 @@ def suite_codecs(ctx):
             s.distinct.add('%s:%d:%d:%d' % (what, lo, hi, stride))
             s.count(what + '_values', cnt)
             if bad is not None:
-                s.fail({'site': 'pack24.' + what, 'input': bad[0], 'observed': bad[1].hex(), 'required': bad[0].to_bytes(3, 'big').hex()})
+                s.fail({'site': 'pack24.' + what, 'input': bad[0], 'observed': bad[1].decode() if bad[1].startswith(b'raised') else bad[1].hex(), 'required': bad[0].to_bytes(3, 'big').hex()})
             line = 'codec.hash what=%s lo=%d hi=%d stride=%d' % (what, lo, hi, stride)
             m = core.drv_batch([line])[0]
             if m != str(h):
                 # locate the first differing value
                 first = None
-                for n in range(lo, hi, stride):
-                    if core.hx(fn(n)) != core.drv_batch(['codec.one what=%s n=%d' % (what, n)])[0]:
+                for n in ([bad[0]] if bad is not None else range(lo, hi, stride)):
+                    try:
+                        got = core.hx(fn(n))
+                    except Exception as e:  # noqa
+                        got = 'raised ' + type(e).__name__
+                    if got != core.drv_batch(['codec.one what=%s n=%d' % (what, n)])[0]:
                         first = n
                         break
                 s.diverge(line + ' first_diff=%s' % first, m, str(h))
